@@ -389,7 +389,21 @@ def F21():
         return "FuzzyUnion of the integer-typed fuzzy fields [-1, 0, 1] and [1, 1, 0] = %r (expected [0, 0.5, 0.5])" % (got,)
 
 
-ALL = ["F1", "F2", "F3", "F4", "F5", "F6", "F7", "F8", "F9", "F11", "F13", "F14", "F15", "F16", "F17", "F18", "F19", "F20", "F21"]
+def F22():
+    import numpy
+    from mpilot import params
+    from mpilot.exceptions import ParameterNotValid
+    p = params.DataTypeParameter(valid_types={"Float": numpy.float64, "Integer": int, "Positive Integer": numpy.uint})
+    try:
+        p.clean(numpy.float32(2.5), None, 3)
+    except ParameterNotValid:
+        return None
+    except Exception as e:
+        return "DataTypeParameter.clean(numpy.float32(2.5)) raises %s instead of ParameterNotValid" % type(e).__name__
+    return "DataTypeParameter.clean(numpy.float32(2.5)) was accepted"
+
+
+ALL = ["F1", "F2", "F3", "F4", "F5", "F6", "F7", "F8", "F9", "F11", "F13", "F14", "F15", "F16", "F17", "F18", "F19", "F20", "F21", "F22"]
 
 if __name__ == "__main__":
     sel = sys.argv[1:] or ALL
